@@ -40,9 +40,28 @@ func vpC13Item(shape int, id IRI) Item {
 		return &Object{ID: id, Type: NoteType}
 	case 2:
 		return &Actor{ID: id, Type: PersonType}
-	default:
+	case 3:
 		return &Activity{ID: id, Type: LikeType}
 	}
+	// shapes 4..: members with every property populated (membership goes through the library's
+	// equality, which must hold a fully populated value equal to itself)
+	var x Item
+	switch shape {
+	case 4:
+		x = vpPopulated(vpTypeIndex("Actor"))
+	case 5:
+		x = vpPopulated(vpTypeIndex("Object"))
+	case 6:
+		x = vpPopulated(vpTypeIndex("Activity"))
+	case 7:
+		x = vpPopulated(vpTypeIndex("Question"))
+	case 8:
+		x = vpPopulated(vpTypeIndex("OrderedCollection"))
+	default:
+		x = vpPopulated(vpTypeIndex("Place"))
+	}
+	vpSetID(x, id)
+	return x
 }
 
 func vpC13ID(c byte) IRI { return IRI("https://h.ex/" + string([]byte{c})) }
@@ -88,8 +107,10 @@ func vpC13Pool(n, kind, shapes int) []Item {
 		}
 		ids = append(ids, c)
 		shape := 0
-		if kind != 1 {
+		if kind != 1 && shapes > 0 {
 			shape = vpChoice(shapes)
+		} else if kind != 1 {
+			shape = 4 + vpChoice(-shapes) // negative: only the populated shapes
 		}
 		pool[i] = vpC13Item(shape, vpC13ID(c))
 	}
@@ -196,6 +217,8 @@ func vpH_C13_step_coll()   { vpC13Step(2, 2, 2) }
 func vpH_C13_step_ocoll()  { vpC13Step(3, 2, 2) }
 func vpH_C13_step_page()   { vpC13Step(4, 2, 2) }
 func vpH_C13_step_opage()  { vpC13Step(5, 2, 2) }
+func vpH_C13_step_rich_items() { vpC13Step(0, 1, -6) }
+func vpH_C13_step_rich_ocoll() { vpC13Step(3, 1, -6) }
 func vpH_C13_step3_items() { vpC13Step(0, 3, 1) }
 func vpH_C13_step3_coll()  { vpC13Step(3, 3, 1) }
 
